@@ -984,8 +984,11 @@ class Interp:
             if attr in m.classes:
                 return ("class", m, m.classes[attr])
             return Unknown(f"{m.name}.{attr}")
-        if isinstance(obj, tuple) and obj and obj[0] == "extmodule":
-            return ("extfunc", f"{obj[1]}.{attr}")
+        if isinstance(obj, tuple) and obj and obj[0] in ("extmodule", "extfunc"):
+            nm = f"{obj[1]}.{attr}"
+            if nm in self.externs and not callable(self.externs[nm]):
+                return self.externs[nm]
+            return ("extfunc", nm)
         if isinstance(obj, (AList, SymList, str, bytes, dict)) or (isinstance(obj, tuple) and (not obj or obj[0] not in ("func",))):
             return ("method", obj, attr)
         if isinstance(obj, Unknown):
